@@ -9,7 +9,7 @@ RULE = ('each evaluation is one program run twice on fresh interpreters: with th
         'final values of the global variables and trace positions must agree (oracle); the resolved run is also compared with '
         'the extracted Coq model and the core programs with the reference interpreter. Programs: binder chains of depth 1..5 '
         '(let/fn/inner define x {a,b}, with shadowing) around a use or assignment (exhaustive in thorough, sampled in quick), '
-        'random core programs, and programs using stdlib macros, map/fold callbacks, eval of quoted code, recursion. '
+        'random core programs, programs using stdlib macros, map/fold callbacks, eval of quoted code, recursion, and user macros that use an argument at two frame depths. '
         'distinct = distinct program texts; non-trivial = a use or assignment below at least one binder')
 
 PROBE = "(list (if (defined? 'a) a 'undef) (if (defined? 'b) b 'undef) (if (defined? 'c) c 'undef) (if (defined? 'cnt) cnt 'undef))"
@@ -57,6 +57,20 @@ MACRO_SNIPPETS = [
     "(reverse (list N cnt 3))",
     "(let ([f (fn [] (set [cnt (+ cnt 1)]))]) (f) (f) cnt)",
     "(let ([bump (fn [] (set [cnt (+ cnt N)]))]) (let ([z 1]) (bump)) cnt)",
+]
+
+
+# user macros that use an argument at two different frame depths (the expansion inserts the same argument in both places):
+# (definition, programs)
+USER_MACROS = [
+    ("(defmacro plusd [e] `(+ ,e (let ([k 2]) (* k ,e))))",
+     ["(do (define a 100) (let ([a 5]) (plusd a)))", "(let ([y 5]) (plusd y))", "((fn [a] (plusd a)) 4)", "(do (define a 3) (plusd a))"]),
+    ("(defmacro twice [e] `(list ,e ((fn [q] (+ q ,e)) 1)))",
+     ["(do (define b 2) (let ([b 7]) (twice b)))", "(let ([z 1]) (let ([w 2]) (twice (+ z w))))"]),
+    ("(defmacro setin [v] `(do (set [,v (+ ,v 1)]) (let ([z 0]) (set [,v (+ ,v 10)])) ,v))",
+     ["(do (define a 1) (let ([a 5]) (setin a)))", "(do (define a 1) (setin a))", "(do (define a 1) (list (let ([a 5]) (setin a)) a))"]),
+    ("(defmacro deep3 [e] `(list ,e (let ([p 1]) (list ,e (let ([r 2]) ,e)))))",
+     ["(do (define a 9) (let ([a 5]) (deep3 a)))", "((fn [a] (let ([b a]) (deep3 (+ a b)))) 3)"]),
 ]
 
 
@@ -110,18 +124,28 @@ def run(tier, seed, replay=None):
         texts.append(('macro', macro_prog(rng)))
     # binder shapes that are always run: shadowing let initialisers, define after use in a function body
     texts += [('shadowing', cc.render(p)) for p in cc.shadowing_programs()]
+    pre_of = {}
+    for mdef, progs in USER_MACROS:
+        for t in progs:
+            texts.append(('usermacro', t))
+            pre_of[t] = [mdef]
     cases = []
     for kind, t in texts:
+        pre = pre_of.get(t, [])
         for flags in ('111', '110'):
-            cases.append({'id': len(cases), 'cmds': [['evalstr_all', flags, t], ['evalstr_all', flags, PROBE]], 'text': t,
-                          'kind': kind, 'flags': flags})
+            cases.append({'id': len(cases), 'cmds': [['evalstr_all', flags, x] for x in pre] + [['evalstr_all', flags, t], ['evalstr_all', flags, PROBE]],
+                          'text': t, 'kind': kind, 'flags': flags, 'npre': len(pre)})
         # the resolved run through the normal entry point, for the model correspondence
-        cases.append({'id': len(cases), 'cmds': [['evalstr', '111', t], ['evalstr', '111', PROBE]], 'text': t, 'kind': kind,
-                      'flags': 'model'})
+        cases.append({'id': len(cases), 'cmds': [['evalstr', '111', x] for x in pre] + [['evalstr', '111', t], ['evalstr', '111', PROBE]],
+                      'text': t, 'kind': kind, 'flags': 'model', 'npre': len(pre)})
     results = lib.run_sessions(cases)
     by_text = {}
     for case, impl, mout, cmp in results:
         rep.evaluations += 1
+        r_ = lib.recheck_crash(rep, case, impl, mout, cmp)
+        if r_ is None:
+            continue
+        case, impl, mout, cmp = r_
         if case['flags'] == 'model':
             if cmp is None:
                 pass
@@ -135,7 +159,8 @@ def run(tier, seed, replay=None):
         if '111' not in d or '110' not in d:
             continue
         a, b = d['111'], d['110']
-        ra, rb = a.get('results') or [''], b.get('results') or ['']
+        k0 = len(pre_of.get(t, []))
+        ra, rb = (a.get('results') or [''])[k0:] or [''], (b.get('results') or [''])[k0:] or ['']
         dyn_ok = rb[0].startswith('ok')
         if not dyn_ok:
             # resolution may refuse a program up front; a program that fails dynamically is outside the claim
